@@ -20,10 +20,12 @@ RULE = ('distinct protocol lines (a single slice, a stitching call or an unslice
         'a non-empty series / frame')
 TRUSTED = ['correspondence harness (pv.engine, pv.proto) and generators of pv.props.c13',
            'Lean driver parser/printer (PygModel/Basic.lean, TSBasic.lean, SliceDriver.lean)']
-ASSUMPTIONS = ['pandas: boolean-mask selection and the label slice df[lb:ub] on a sorted unique DatetimeIndex select the rows the masks describe; '
+ASSUMPTIONS = ['pandas: boolean-mask selection keeps the rows whose mask is True, in order; the label slice df[lb:ub] on a non-decreasing DatetimeIndex '
+               'runs from the first row at or after lb to the last row at or before ub (model: labelSlice, proved equal to the masks there); with two '
+               'times of day it is indexer_between_time (both ends included), with one it raises and the masks are used; '
                'concat(axis=1) is an outer join on the union index; concat(axis=0) pads missing columns with NaN; sort_index is a stable sort',
-               'series have strictly increasing duplicate-free datetime indexes; lists hold series (not frames, not scalars); '
-               'bound lists hold dates only',
+               'single slices: any row order (increasing, decreasing, shuffled, a repeated stamp); stitching: series with strictly increasing '
+               'duplicate-free indexes; lists hold series (not frames, not scalars); bound lists hold dates only',
                'a Series and a one-column DataFrame with the same rows are not distinguished']
 
 D0 = datetime.datetime(2020, 1, 1)
